@@ -105,6 +105,7 @@ fn main() {
                 f
             }
             "serde" => tdverif::serdefam::run_case(&case),
+            "giant" => tdverif::giant::run_case(&case),
             "ctor" => match elem.as_str() {
                 "elem" => tdverif::ctor::run_case::<Elem>(&case),
                 "u32" => tdverif::ctor::run_case::<K32>(&case),
